@@ -90,12 +90,16 @@ pub fn drain<const N: usize, P: Pad>(ctx: &mut Ctx) {
                                     ctx.attribute = Some("C09");
                                 }
                                 for f in FOLLOW.iter().skip(if lean { 4 } else { 0 }) {
+                                    if !lean {
+                                        control_step(&h, &model, f, ctx, &MonCfg::FULL);
+                                    }
                                     step(&mut h, &mut model, f, &mut env, ctx, &MonCfg::main(lean), None, None);
                                 }
                                 if forget && !lean {
                                     let mut rng = Rng::new(key ^ ctx.args.seed);
                                     for _ in 0..8 {
                                         let f = gen_op(&mut rng, N, model.len(), true);
+                                        control_step(&h, &model, &f, ctx, &MonCfg::LIGHT);
                                         step(&mut h, &mut model, &f, &mut env, ctx, &MonCfg::LIGHT, None, None);
                                     }
                                 }
